@@ -129,6 +129,31 @@ def has_constants(F):
     return out
 
 
+def masked_table(body, var):
+    """switch over BitAnd(htyp, MASK) whose arms assign constants to `var`: returns (mask, {key: const}, default const)"""
+    cfg = CFG(body)
+    E = ExprBuilder(cfg)
+    for blk in body.blocks:
+        if blk.cleanup or blk.term.k != 'switch':
+            continue
+        c = E.switch_cond(blk)
+        if not (isinstance(c, tuple) and c[0] == 'bin' and c[1] == 'BitAnd' and show(c[2]).endswith('.htyp')):
+            continue
+        mask = fold(c[3])
+        if mask is None:
+            continue
+
+        def const_in(target):
+            for s in body.blocks[target].stmts:
+                if s.k == 'assign' and s.place.is_local and body.name_of(s.place.l) == var:
+                    return fold(E.rvalue(s.rv))
+            return None
+        table = {v: const_in(t) for v, t in blk.term.d['vals']}
+        default = const_in(blk.term.d['otherwise'])
+        return mask, table, default
+    return None
+
+
 def write_order(body):
     """sequence of labels of the write calls of to_write in dominance/CFG order"""
     cfg = CFG(body)
@@ -205,20 +230,41 @@ def check(F, H1, role='both'):
         H1.ok(sample={'base_header_size': 4})
     else:
         H1.violation(('layout', 'BASE', str(i_sz.get('length')), str(i_tw.get('len'))), 'base standard header size is %s in the reader and %s in the writer (expected 4)' % (i_sz.get('length'), i_tw.get('len')))
-    # timestamp offset: ECU and SEID contribute their sizes, nothing else
-    off = {}
-    for fl, d in c_ts.items():
-        vals = d.get('offset', [])
-        if fl == 'TMSP':
-            continue
-        off[fl] = [v if op in ('Add', 'Set') else '%s:%s' % (op, v) for op, v in vals if v]
-    # ECU contributes through `offset = if has_ecu {4} else {0}` (Set 4 in the true region)
-    ok_ts = off.get('ECU') == [4] and off.get('SEID') == [4] and 'EXT' not in off
+    # timestamp offset: ECU and SEID contribute their sizes, nothing else.  Two accepted idioms:
+    #  (a) if-chain on has_ecu_id()/has_session_id() (contributions extracted above)
+    #  (b) a switch over `htyp & MASK` whose arms assign constants: every key of the mask must map to the sum
+    #      of the sizes of the parts whose bit is set in the key
     H1.sites += 1
-    if ok_ts:
-        H1.ok(sample={'timestamp_offset': 'ECU:4 + SEID:4', 'agrees_with_sizes': True})
+    mt = masked_table(ts, 'offset')
+    if mt is not None:
+        mask, table, default = mt
+        bad = []
+        size_by_bit = {hc.get('ECU'): 4, hc.get('SEID'): 4}
+        keys = [k for k in range(mask + 1) if k & ~mask == 0]
+        for k in keys:
+            want_off = sum(sz for bit, sz in size_by_bit.items() if bit and (k & bit))
+            got_off = table.get(k, default)
+            if got_off != want_off:
+                bad.append((k, got_off, want_off))
+        if mask == (hc.get('ECU', 0) | hc.get('SEID', 0)) and not bad:
+            H1.ok(sample={'timestamp_offset_table': {k: table.get(k, default) for k in keys}, 'mask': mask})
+        else:
+            H1.violation(('timestamp-offset-table', 'mask%d' % mask, ','.join('%d:%s' % (k, g) for k, g, w in bad)),
+                         'timestamp_dms switches over htyp & %d: for flag combination(s) %s it uses offset(s) %s but the layout requires %s' %
+                         (mask, [k for k, g, w in bad], [g for k, g, w in bad], [w for k, g, w in bad]), where=ts.loc(None))
     else:
-        H1.violation(('timestamp-offset', str(sorted(off.items()))), 'timestamp_dms computes its offset from %s; the header layout puts the timestamp after ECU id (4) and session id (4)' % off, where=ts.loc(None))
+        off = {}
+        for fl, d in c_ts.items():
+            vals = d.get('offset', [])
+            if fl == 'TMSP':
+                continue
+            off[fl] = [v if op in ('Add', 'Set') else '%s:%s' % (op, v) for op, v in vals if v]
+        # ECU contributes through `offset = if has_ecu {4} else {0}` (Set 4 in the true region)
+        ok_ts = off.get('ECU') == [4] and off.get('SEID') == [4] and 'EXT' not in off
+        if ok_ts:
+            H1.ok(sample={'timestamp_offset': 'ECU:4 + SEID:4', 'agrees_with_sizes': True})
+        else:
+            H1.violation(('timestamp-offset', str(sorted(off.items()))), 'timestamp_dms computes its offset from %s; the header layout puts the timestamp after ECU id (4) and session id (4)' % off, where=ts.loc(None))
     # ecu at offset 0
     ce = CFG(ecu)
     Ee = ExprBuilder(ce)
